@@ -227,8 +227,118 @@ let run_tok dir mode phase uefile =
         if not (Hashtbl.mem seen w) then begin Hashtbl.add seen w (); pr_dot w; flush_line () end) d.Tok.d_amps
     else begin pr_doc d; flush_line () end)
 
+(* reader cases: "<pad> <failAt> <bytes...>"; variant: fixed|unfixed|whole *)
+let run_reader dir variant uefile phase =
+  let t = load_tok_tables dir uefile in
+  let seen = Hashtbl.create 64 in
+  iter_lines (fun line ->
+    match ints_of_line line with
+    | pad :: fail :: body ->
+      let bs = List.init pad (fun _ -> n_of_int 32) @ List.map n_of_int body in
+      let res = match variant with
+        | "whole" -> if fail >= 0 then None else Some (Tok.tokenize_whole t true bs)
+        | _ -> Reader.tokenize_stream t true (variant = "fixed") bs (if fail >= 0 then Some (n_of_int fail) else None) in
+      if phase = "amps" then
+        (match res with Some d -> List.iter (fun w ->
+          if not (Hashtbl.mem seen w) then begin Hashtbl.add seen w (); pr_dot w; flush_line () end) d.Tok.d_amps | None -> ())
+      else begin (match res with None -> pr "ERR" | Some d -> pr_doc d); flush_line () end
+    | _ -> flush_line ())
+
+(* ---------------- v2 match pipeline ---------------- *)
+let ints_of_csv (s : string) = if s = "" then [] else List.map int_of_string (String.split_on_char ',' s)
+
+type corpus = { thr : SpecFloat.spec_float; words : (int, BinNums.coq_N list) Hashtbl.t; docs : Match.cdoc list }
+
+let unknown_word = List.map (fun c -> n_of_int (Char.code c)) ['U';'N';'K';'N';'O';'W';'N']
+
+let mk_sset len q sums = { SSet.ss_len = n_of_int len; ss_q = n_of_int q; ss_sums = List.map n_of_int sums }
+
+let pr_str w = List.iter (fun r -> let c = int_of_n r in
+  if c < 128 then Buffer.add_char buf (Char.chr c) else Buffer.add_utf_8_uchar buf (Uchar.of_int c)) w
+
+let run_match dir total_less =
+  let digits = List.filter_map (fun l -> match List.filter (fun x -> x <> "") (fields l) with
+      | [a; b] -> Some (n_of_int (int_of_string a), n_of_int (int_of_string b)) | _ -> None)
+      (read_lines (Filename.concat dir "unicode.digits")) in
+  let is_digit = TokTables.in_ranges digits in
+  let corpora : (int, corpus) Hashtbl.t = Hashtbl.create 8 in
+  let cur_corpus = ref None in
+  let cur_words = ref (Hashtbl.create 1) and cur_docs = ref [] and cur_thr = ref (Float64.of_Z BinNums.Z0) in
+  let case_corpus = ref 0 and case_t = ref None and case_diffs = ref (Hashtbl.create 1) in
+  iter_lines (fun line ->
+    match fields line with
+    | ["CORPUS"; id] -> cur_corpus := Some (int_of_string id); cur_words := Hashtbl.create 4096; cur_docs := []
+    | ["THR"; bits; "Q"; _] -> cur_thr := Float64.of_bits (z_of_int (int_of_string bits))
+    | ["WORD"; id; w] -> Hashtbl.replace !cur_words (int_of_string id) (runes_of_dot w)
+    | ["WORD"; id] -> Hashtbl.replace !cur_words (int_of_string id) []
+    | "DOC" :: key :: "Q" :: q :: "IDS" :: rest ->
+      let ids, sums = (match rest with
+        | [ids; "SUMS"; sums] -> ints_of_csv ids, ints_of_csv sums
+        | [ids; "SUMS"] -> ints_of_csv ids, []
+        | ["SUMS"; sums] -> [], ints_of_csv sums
+        | ["SUMS"] -> [], []
+        | _ -> failwith ("bad DOC line: " ^ line)) in
+      cur_docs := { Match.cd_key = runes_of_dot key; cd_ids = List.map n_of_int ids;
+                    cd_set = mk_sset (List.length ids) (int_of_string q) sums } :: !cur_docs
+    | ["END"] -> (match !cur_corpus with
+        | Some id -> Hashtbl.replace corpora id { thr = !cur_thr; words = !cur_words; docs = List.rev !cur_docs }
+        | None -> ())
+    | ["CASE"; id] -> case_corpus := int_of_string id; case_t := None; case_diffs := Hashtbl.create 16
+    | "T" :: "IDS" :: rest ->
+      (* T IDS a LINES b PSEUDO c Q q SUMS s  with possibly empty fields *)
+      let rec grab acc = function
+        | [] -> List.rev acc
+        | k :: v :: r when List.mem k ["LINES"; "PSEUDO"; "Q"; "SUMS"] && not (List.mem v ["LINES"; "PSEUDO"; "Q"; "SUMS"]) -> grab ((k, v) :: acc) r
+        | k :: r when List.mem k ["LINES"; "PSEUDO"; "Q"; "SUMS"] -> grab ((k, "") :: acc) r
+        | v :: r -> grab (("IDS", v) :: acc) r in
+      let kv = grab [] rest in
+      let get k = try List.assoc k kv with Not_found -> "" in
+      case_t := Some (ints_of_csv (get "IDS"), ints_of_csv (get "LINES"), ints_of_csv (get "PSEUDO"),
+                      (let q = get "Q" in if q = "" then 0 else int_of_string q), ints_of_csv (get "SUMS"))
+    | "D" :: key :: s :: e :: rest ->
+      let ds = match rest with
+        | [] | [""] -> []
+        | [spec] -> List.map (fun part ->
+            match String.index_opt part ':' with
+            | Some i ->
+              let op = int_of_string (String.sub part 0 i) in
+              let ids = ints_of_csv (String.sub part (i + 1) (String.length part - i - 1)) in
+              ((if op = 0 then Match.DEqual else if op = 1 then Match.DInsert else Match.DDelete), List.map n_of_int ids)
+            | None -> failwith "bad diff") (String.split_on_char ';' spec)
+        | _ -> failwith "bad D line" in
+      Hashtbl.replace !case_diffs (key, int_of_string s, int_of_string e) ds
+    | ["ENDCASE"] ->
+      let c = Hashtbl.find corpora !case_corpus in
+      (match !case_t with
+       | None -> pr "NO-TARGET"
+       | Some (ids, lines, pseudo, q, sums) ->
+         let diffs = !case_diffs in
+         let cfg = { Match.cf_thr = c.thr;
+                     cf_word = (fun id -> try Hashtbl.find c.words (int_of_n id) with Not_found -> unknown_word);
+                     cf_is_digit = is_digit;
+                     cf_total_less = total_less;
+                     cf_diff = (fun key s e ->
+                       let k = String.concat "." (List.map (fun r -> string_of_int (int_of_n r)) key) in
+                       Hashtbl.find_opt diffs (k, int_of_n s, int_of_n e)) } in
+         let tset = mk_sset (List.length ids) q sums in
+         (match Match.match_tokens cfg c.docs (List.map n_of_int ids) (List.map z_of_int lines)
+                  (List.map z_of_int pseudo) tset with
+          | Match.Err site -> pr "ERR%d" (int_of_nat site)
+          | Match.Ok r ->
+            List.iter (fun m ->
+              pr_str m.Match.m_type; pr "/"; pr_str m.Match.m_name; pr "/"; pr_str m.Match.m_variant;
+              pr ":%d:%d-%d:%d-%d;" (int_of_z (Float64.to_bits m.Match.m_conf))
+                (int_of_z m.Match.m_sl) (int_of_z m.Match.m_el) (int_of_z m.Match.m_st) (int_of_z m.Match.m_et))
+              r.Match.r_matches;
+            pr " total=%d" (int_of_z r.Match.r_total)));
+      flush_line ()
+    | _ -> ())
+
 let () =
   match Sys.argv with
+  | [| _; "match"; dir; tl |] -> run_match dir (tl = "total")
+  | [| _; "reader"; dir; variant; "amps" |] -> run_reader dir variant "" "amps"
+  | [| _; "reader"; dir; variant; "run"; uefile |] -> run_reader dir variant uefile "run"
   | [| _; "tok"; dir; mode; "amps" |] -> run_tok dir mode "amps" ""
   | [| _; "tok"; dir; mode; "run"; uefile |] -> run_tok dir mode "run" uefile
   | [| _; "lexer"; table; variant |] -> run_lexer table variant
